@@ -132,4 +132,38 @@ theorem answered_WU (hc : Sound c) {stF : State K R} (hl : LawAt C stF.top stF.t
   have eU : U = u := Option.some.inj (h2.symm.trans hU)
   rw [← eW, ← eU]; exact ⟨v1, v2, v3⟩
 
+/-- **independence of everything two disjoint answered queries return** (resolved times, `tb ≤ tc`) -/
+theorem answered_indep_WU (hc : Sound c) {stF : State K R} (hl : LawAt C stF.top stF.tree.s stF.tree.e) (hf : Fresh C nz stF.top [])
+    {ta tb tc td : K} {w1 u1 w2 u2 : R} (ra : c.rnd ta = ta) (rb : c.rnd tb = tb) (rc : c.rnd tc = tc) (rd : c.rnd td = td)
+    (l1 : ta < tb) (hord : tb ≤ tc) (l2 : tc < td)
+    (h1 : Answered (c := c) (o := vecOps sqrt nz) a stF ta tb w1 u1) (h2 : Answered (c := c) (o := vecOps sqrt nz) a stF tc td w2 u2) :
+    C.ip w1 w2 = 0 ∧ C.ip w1 u2 = 0 ∧ C.ip u1 w2 = 0 ∧ C.ip u1 u2 = 0 := by
+  obtain ⟨p1, f1, sp1, hwf⟩ := answered_final a hc h1 (by rw [ra, rb]; exact l1)
+  obtain ⟨p2, f2, sp2, _⟩ := answered_final a hc h2 (by rw [rc, rd]; exact l2)
+  rw [ra, rb] at f1
+  rw [rc, rd] at f2
+  have conv : ∀ (ps : List Path) {X : R}, sumW (vecOps sqrt nz) (φV (K := K)) stF.top stF.tree [] ps = some X →
+      sumW (vecOps sqrt nz) ((ψW (K := K)).app (R := R)) stF.top stF.tree [] ps = some X := by
+    intro ps
+    induction ps with
+    | nil => intro X h; simpa [sumW] using h
+    | cons p ps ih =>
+      intro X h
+      simp only [sumW] at h ⊢
+      split at h
+      · rename_i v nd sx hv hg hs
+        rw [hv, hg, ih hs]
+        simp only [Option.some.injEq] at h ⊢
+        rw [← h]; simp [LinF.app, ψW]
+      · simp at h
+  have W1 := conv _ (answerSpec_W (C04History.vecOps_aggAdditive sqrt nz) sp1)
+  have W2 := conv _ (answerSpec_W (C04History.vecOps_aggAdditive sqrt nz) sp2)
+  have U1 := answerSpec_UR (C04History.vecOps_aggAdditive sqrt nz) (vecOps_aggChen sqrt nz) (find_chain hwf f1) sp1
+  have U2 := answerSpec_UR (C04History.vecOps_aggAdditive sqrt nz) (vecOps_aggChen sqrt nz) (find_chain hwf f2) sp2
+  rw [φUR_eq] at U1 U2
+  exact ⟨queries_uncorrelated sqrt C nz hsq hn hwf hl hf ψW ψW hord f1 f2 W1 W2,
+    queries_uncorrelated sqrt C nz hsq hn hwf hl hf ψW (ψU td) hord f1 f2 W1 U2,
+    queries_uncorrelated sqrt C nz hsq hn hwf hl hf (ψU tb) ψW hord f1 f2 U1 W2,
+    queries_uncorrelated sqrt C nz hsq hn hwf hl hf (ψU tb) (ψU td) hord f1 f2 U1 U2⟩
+
 end C04HistoryU
